@@ -68,10 +68,62 @@ func (a *analysis) addObj(v ssa.Value, t int) {
 	}
 }
 
+// retAliasOf: for an analysed function, the parameter indices that one of its pointer-like results may alias
+// (e.g. padBytes returns input[:length]); root() follows a call to such a function into the matching argument.
+var retAliasOf = map[*ssa.Function][]int{}
+
+func paramIndex(f *ssa.Function, p *ssa.Parameter) int {
+	for i, q := range f.Params {
+		if q == p {
+			return i
+		}
+	}
+	return -1
+}
+
+func benignKind(k string) bool { return k == "local" || k == "fresh" || k == "const" || k == "pool" }
+
+// spilledParam: the local slot `x` is the by-value copy of a parameter (`*x = param` at function entry)
+func spilledParam(x *ssa.Alloc) *ssa.Parameter {
+	if x.Referrers() == nil {
+		return nil
+	}
+	for _, r := range *x.Referrers() {
+		if st, ok := r.(*ssa.Store); ok && st.Addr == x {
+			if p, ok := st.Val.(*ssa.Parameter); ok {
+				return p
+			}
+		}
+	}
+	return nil
+}
+
+func pointerLike(t types.Type) bool {
+	switch t.Underlying().(type) {
+	case *types.Slice, *types.Pointer, *types.Map:
+		return true
+	}
+	return false
+}
+
 // root follows address / slice derivations back to the object a value points into.
 func root(v ssa.Value) ssa.Value {
+	deref := false // a pointer / slice / map was loaded from memory on the way: the pointee is not the holder's own storage
 	for i := 0; i < 64; i++ {
 		switch x := v.(type) {
+		case *ssa.Alloc:
+			// a reference loaded out of the local copy of a by-value struct parameter still points into the caller's memory
+			if deref {
+				if p := spilledParam(x); p != nil {
+					return p
+				}
+			}
+			return v
+		case *ssa.Field:
+			if pointerLike(x.Type()) {
+				deref = true
+			}
+			v = x.X
 		case *ssa.IndexAddr:
 			v = x.X
 		case *ssa.FieldAddr:
@@ -89,6 +141,9 @@ func root(v ssa.Value) ssa.Value {
 		case *ssa.UnOp:
 			if x.Op == token.MUL {
 				// a pointer/slice loaded from memory: the pointee belongs to whatever the holder belongs to
+				if pointerLike(x.Type()) {
+					deref = true
+				}
 				v = x.X
 			} else {
 				return v
@@ -112,6 +167,27 @@ func root(v ssa.Value) ssa.Value {
 			if b, ok := x.Call.Value.(*ssa.Builtin); ok && b.Name() == "append" {
 				v = x.Call.Args[0]
 				continue
+			}
+			if f := x.Call.StaticCallee(); f != nil {
+				if idxs, ok := retAliasOf[f]; ok && len(idxs) > 0 {
+					// the result aliases one of the arguments: prefer a non-benign one (over-approximation)
+					best := -1
+					for _, ix := range idxs {
+						if ix < len(x.Call.Args) {
+							if best < 0 {
+								best = ix
+							}
+							if !benignKind(rootKind(rootNoPhi(x.Call.Args[ix]))) {
+								best = ix
+								break
+							}
+						}
+					}
+					if best >= 0 {
+						v = x.Call.Args[best]
+						continue
+					}
+				}
 			}
 			return v
 		default:
@@ -406,7 +482,12 @@ func (a *analysis) call(ci ssa.CallInstruction) {
 				a.addVal(v, argT)
 			}
 			a.addObj(root(c.Args[0]), argT)
-		case "len", "cap", "min", "max":
+		case "len", "cap":
+			// the length of the expected code is the (public) digit count: lengths carry caller / secret labels only
+			if v != nil {
+				a.addVal(v, argT&^tH)
+			}
+		case "min", "max":
 			if v != nil {
 				a.addVal(v, argT)
 			}
@@ -428,6 +509,10 @@ func (a *analysis) call(ci ssa.CallInstruction) {
 				if i < len(args) {
 					a.addVal(p, a.taintOf(args[i]))
 					a.addObj(p, a.obj[root(args[i])])
+					// what the callee writes through a pointer / slice parameter lands in the caller's object
+					if pointerLike(p.Type()) {
+						a.addObj(root(args[i]), a.obj[p])
+					}
 				}
 			}
 			if v != nil {
@@ -538,6 +623,28 @@ func isConst(v ssa.Value) bool {
 
 func fnName(f *ssa.Function) string {
 	n := f.String()
+	// a function literal assigned to a package-level variable is named after the variable (init$N numbers shift
+	// whenever another literal is added to the package)
+	if p := f.Parent(); p != nil && p.Name() == "init" && p.Parent() == nil {
+		for _, b := range p.Blocks {
+			for _, ins := range b.Instrs {
+				if st, ok := ins.(*ssa.Store); ok {
+					var fv ssa.Value = st.Val
+					if mc, ok := fv.(*ssa.MakeClosure); ok {
+						fv = mc.Fn
+					}
+					if mi, ok := fv.(*ssa.MakeInterface); ok {
+						fv = mi.X
+					}
+					if cf, ok := fv.(*ssa.Function); ok && cf == f {
+						if g, ok := root(st.Addr).(*ssa.Global); ok && p.Pkg != nil {
+							n = p.Pkg.Pkg.Path() + "." + g.Name() + "$func"
+						}
+					}
+				}
+			}
+		}
+	}
 	n = strings.ReplaceAll(n, "github.com/ja7ad/otp", "otp")
 	return n
 }
@@ -689,6 +796,31 @@ type site struct {
 	extra               []string
 	x, y                int
 	xc, yc              bool
+	// verification condition (panic sites): variables, hypotheses, goal; and the same under the context of every call site
+	vcVars, vcHyps []string
+	vcGoal         string
+	hasVC          bool
+	vcCtx          [][3]interface{}
+	hasCtx         bool
+}
+
+func appendPanic(ps []site, ins ssa.Instruction, s site) []site {
+	s.vcVars, s.vcHyps, s.vcGoal, s.hasVC = vcFor(ins)
+	if s.hasVC {
+		s.vcCtx, s.hasCtx = vcVariants(ins, 0)
+	}
+	return append(ps, s)
+}
+
+func vcStmt(vars, hyps []string, goal string) string {
+	stmt := ""
+	if len(vars) > 0 {
+		stmt = "∀ (" + strings.Join(vars, " ") + " : Int), "
+	}
+	for _, h := range hyps {
+		stmt += "(" + h + ") → "
+	}
+	return stmt + "(" + goal + ")"
 }
 
 func lstr(s string) string {
@@ -824,6 +956,112 @@ func analyse(cfgName string, env []string, patterns []string, wantPkgs map[strin
 			break
 		}
 	}
+	// --- interprocedural summaries for the store-root analysis
+	for k := range retAliasOf {
+		delete(retAliasOf, k)
+	}
+	for iter := 0; iter < 4; iter++ {
+		for _, f := range a.fns {
+			seen := map[int]bool{}
+			for _, b := range f.Blocks {
+				for _, ins := range b.Instrs {
+					if ret, ok := ins.(*ssa.Return); ok {
+						for _, res := range ret.Results {
+							switch res.Type().Underlying().(type) {
+							case *types.Slice, *types.Pointer, *types.Map:
+								if p, ok := root(res).(*ssa.Parameter); ok && !isNilConst(res) {
+									if ix := paramIndex(f, p); ix >= 0 {
+										seen[ix] = true
+									}
+								}
+							}
+						}
+					}
+				}
+			}
+			var idxs []int
+			for ix := range seen {
+				idxs = append(idxs, ix)
+			}
+			sort.Ints(idxs)
+			retAliasOf[f] = idxs
+		}
+	}
+	// call sites of every analysed function, and whether a function value of it is taken anywhere
+	for k := range vcCallers {
+		delete(vcCallers, k)
+	}
+	for k := range vcValueUse {
+		delete(vcValueUse, k)
+	}
+	callers := map[*ssa.Function][]*ssa.CallCommon{}
+	callerFn := map[*ssa.CallCommon]*ssa.Function{}
+	valueUse := map[*ssa.Function]bool{}
+	for _, f := range a.fns {
+		for _, b := range f.Blocks {
+			for _, ins := range b.Instrs {
+				if ci, ok := ins.(ssa.CallInstruction); ok {
+					c := ci.Common()
+					if g := c.StaticCallee(); g != nil && a.inRepo[g] {
+						callers[g] = append(callers[g], c)
+						callerFn[c] = f
+						vcCallers[g] = append(vcCallers[g], ci)
+					}
+					for _, arg := range c.Args {
+						if g, ok := arg.(*ssa.Function); ok {
+							valueUse[g] = true
+						}
+					}
+				} else {
+					for _, op := range ins.Operands(nil) {
+						if op != nil && *op != nil {
+							if g, ok := (*op).(*ssa.Function); ok {
+								valueUse[g] = true
+							}
+						}
+					}
+				}
+			}
+		}
+	}
+	for k, v := range valueUse {
+		vcValueUse[k] = v
+	}
+	// benignParam(f, i): f is an unexported, non-escaping function and at EVERY call site the i-th argument points into
+	// local, fresh or pooled memory (or into a parameter of the caller that is benign in turn): a write through that
+	// parameter cannot touch an exported function's argument or a global.
+	var benignParam func(f *ssa.Function, i int, depth int) bool
+	benignParam = func(f *ssa.Function, i int, depth int) bool {
+		if depth > 6 || f.Parent() != nil || valueUse[f] || token.IsExported(f.Name()) || len(callers[f]) == 0 {
+			return false
+		}
+		for _, c := range callers[f] {
+			if i >= len(c.Args) {
+				return false
+			}
+			r := root(c.Args[i])
+			k := rootKind(r)
+			if benignKind(k) {
+				continue
+			}
+			if p, ok := r.(*ssa.Parameter); ok {
+				g := callerFn[c]
+				if ix := paramIndex(g, p); ix >= 0 && benignParam(g, ix, depth+1) {
+					continue
+				}
+			}
+			return false
+		}
+		return true
+	}
+	rootedAtBenignParam := func(f *ssa.Function, v ssa.Value) bool {
+		if p, ok := root(v).(*ssa.Parameter); ok {
+			if ix := paramIndex(f, p); ix >= 0 {
+				return benignParam(f, ix, 0)
+			}
+		}
+		return false
+	}
 	// --- collect sites
 	for _, f := range a.fns {
 		if len(f.Blocks) == 0 {
@@ -849,7 +1087,7 @@ func analyse(cfgName string, env []string, patterns []string, wantPkgs map[strin
 					case token.QUO, token.REM:
 						if libFn && !isConst(x.Y) {
 							if bt, ok := x.Y.Type().Underlying().(*types.Basic); ok && bt.Info()&types.IsInteger != 0 {
-								panics = append(panics, site{cfg: cfgName, fn: fn, kind: "div", ord: next("div"), expr: exprText(x), extra: guardsOf(b, x.Y)})
+								panics = appendPanic(panics, ins, site{cfg: cfgName, fn: fn, kind: "div", ord: next("div"), expr: exprText(x), extra: guardsOf(b, x.Y)})
 							}
 						}
 					}
@@ -868,21 +1106,21 @@ func analyse(cfgName string, env []string, patterns []string, wantPkgs map[strin
 					}
 					if libFn {
 						if _, isMap := x.X.Type().Underlying().(*types.Map); !isMap && !isConst(x.Index) {
-							panics = append(panics, site{cfg: cfgName, fn: fn, kind: "index", ord: next("index"), expr: exprText(x), extra: guardsOf(b, x.Index, x.X)})
+							panics = appendPanic(panics, ins, site{cfg: cfgName, fn: fn, kind: "index", ord: next("index"), expr: exprText(x), extra: guardsOf(b, x.Index, x.X)})
 						}
 					}
 				case *ssa.IndexAddr:
 					if libFn && !isConst(x.Index) {
-						panics = append(panics, site{cfg: cfgName, fn: fn, kind: "index", ord: next("index"), expr: exprText(x), extra: guardsOf(b, x.Index, x.X)})
+						panics = appendPanic(panics, ins, site{cfg: cfgName, fn: fn, kind: "index", ord: next("index"), expr: exprText(x), extra: guardsOf(b, x.Index, x.X)})
 					} else if libFn {
 						// constant index into a slice (arrays are checked at compile time)
 						if _, isSlice := x.X.Type().Underlying().(*types.Slice); isSlice {
-							panics = append(panics, site{cfg: cfgName, fn: fn, kind: "index", ord: next("index"), expr: exprText(x), extra: guardsOf(b, x.X)})
+							panics = appendPanic(panics, ins, site{cfg: cfgName, fn: fn, kind: "index", ord: next("index"), expr: exprText(x), extra: guardsOf(b, x.X)})
 						}
 					}
 				case *ssa.Index:
 					if libFn && !isConst(x.Index) {
-						panics = append(panics, site{cfg: cfgName, fn: fn, kind: "index", ord: next("index"), expr: exprText(x), extra: guardsOf(b, x.Index, x.X)})
+						panics = appendPanic(panics, ins, site{cfg: cfgName, fn: fn, kind: "index", ord: next("index"), expr: exprText(x), extra: guardsOf(b, x.Index, x.X)})
 					}
 				case *ssa.Slice:
 					if libFn && (x.Low != nil && !isConst(x.Low) || x.High != nil && !isConst(x.High) || x.High != nil && isConst(x.High) && !isArrayPtr(x.X) || x.Low != nil && isConst(x.Low) && !isArrayPtr(x.X) && exprText(x.Low) != "0") {
@@ -893,33 +1131,36 @@ func analyse(cfgName string, env []string, patterns []string, wantPkgs map[strin
 						if x.High != nil {
 							hi = exprText(x.High)
 						}
-						panics = append(panics, site{cfg: cfgName, fn: fn, kind: "slice", ord: next("slice"), expr: exprText(x.X) + "[" + lo + ":" + hi + "]", extra: guardsOf(b, x.Low, x.High, x.X)})
+						panics = appendPanic(panics, ins, site{cfg: cfgName, fn: fn, kind: "slice", ord: next("slice"), expr: exprText(x.X) + "[" + lo + ":" + hi + "]", extra: guardsOf(b, x.Low, x.High, x.X)})
 					}
 					if usesPool && rootKind(root(x.X)) == "pool" {
-						poolOps = append(poolOps, "reslice "+exprText(x.X))
+						poolOps = append(poolOps, "4|reslice "+exprText(x.X))
 					}
 				case *ssa.MakeSlice:
 					if libFn && !isConst(x.Len) {
-						panics = append(panics, site{cfg: cfgName, fn: fn, kind: "makeslice", ord: next("makeslice"), expr: "make(" + exprText(x.Len) + ")", extra: guardsOf(b, x.Len)})
+						panics = appendPanic(panics, ins, site{cfg: cfgName, fn: fn, kind: "makeslice", ord: next("makeslice"), expr: "make(" + exprText(x.Len) + ")", extra: guardsOf(b, x.Len)})
 					}
 				case *ssa.TypeAssert:
-					if libFn && !x.CommaOk {
-						panics = append(panics, site{cfg: cfgName, fn: fn, kind: "typeassert", ord: next("typeassert"), expr: exprText(x.X) + ".(" + x.AssertedType.String() + ")"})
+					if libFn && !x.CommaOk && poolTyped(a, x) {
+						// what comes out of this pool is what New makes and every Put puts: values of exactly the asserted type
+						panics = appendPanic(panics, ins, site{cfg: cfgName, fn: fn, kind: "typeassert(pool-typed)", ord: next("typeassert"), expr: exprText(x.X) + ".(" + x.AssertedType.String() + ")"})
+					} else if libFn && !x.CommaOk {
+						panics = appendPanic(panics, ins, site{cfg: cfgName, fn: fn, kind: "typeassert", ord: next("typeassert"), expr: exprText(x.X) + ".(" + x.AssertedType.String() + ")"})
 					}
 				case *ssa.Panic:
 					if libFn {
-						panics = append(panics, site{cfg: cfgName, fn: fn, kind: "panic", ord: next("panic"), expr: exprText(x.X)})
+						panics = appendPanic(panics, ins, site{cfg: cfgName, fn: fn, kind: "panic", ord: next("panic"), expr: exprText(x.X)})
 					}
 				case *ssa.Store:
 					r := root(x.Addr)
 					k := rootKind(r)
 					if !isInit && (strings.HasPrefix(k, "param:") || strings.HasPrefix(k, "global:") || strings.HasPrefix(k, "freevar:") || strings.HasPrefix(k, "call:") || strings.HasPrefix(k, "other:")) {
-						if _, direct := x.Addr.(*ssa.Alloc); !direct {
+						if _, direct := x.Addr.(*ssa.Alloc); !direct && !rootedAtBenignParam(f, x.Addr) {
 							stores = append(stores, site{cfg: cfgName, fn: fn, kind: "store " + k, ord: next("store"), expr: exprText(x.Addr)})
 						}
 					}
 					if usesPool && k == "pool" {
-						poolOps = append(poolOps, "write "+exprText(x.Addr))
+						poolOps = append(poolOps, "3|write "+exprText(x.Addr))
 					}
 				case *ssa.MapUpdate:
 					r := root(x.Map)
@@ -932,6 +1173,11 @@ func analyse(cfgName string, env []string, patterns []string, wantPkgs map[strin
 						switch res.Type().Underlying().(type) {
 						case *types.Slice, *types.Pointer, *types.Map:
 							k := rootKind(root(res))
+							if strings.HasPrefix(k, "param:") && !token.IsExported(f.Name()) && f.Parent() == nil && !valueUse[f] {
+								// an internal helper returning a view of its argument: accounted for at its call sites (retAliasOf);
+								// without call sites it is dead code outside the tests
+								continue
+							}
 							if strings.HasPrefix(k, "param:") || strings.HasPrefix(k, "global:") || k == "pool" {
 								if !isNilConst(res) {
 									stores = append(stores, site{cfg: cfgName, fn: fn, kind: "return " + k, ord: next("return"), expr: exprText(res)})
@@ -973,11 +1219,11 @@ func analyse(cfgName string, env []string, patterns []string, wantPkgs map[strin
 					// appends / copies into non-local memory
 					if b, ok := c.Value.(*ssa.Builtin); ok && (b.Name() == "append" || b.Name() == "copy") {
 						k := rootKind(root(c.Args[0]))
-						if strings.HasPrefix(k, "param:") || strings.HasPrefix(k, "global:") || strings.HasPrefix(k, "freevar:") {
+						if (strings.HasPrefix(k, "param:") || strings.HasPrefix(k, "global:") || strings.HasPrefix(k, "freevar:")) && !rootedAtBenignParam(f, c.Args[0]) {
 							stores = append(stores, site{cfg: cfgName, fn: fn, kind: b.Name() + " " + k, ord: next("store"), expr: exprText(c.Args[0])})
 						}
 						if usesPool && k == "pool" {
-							poolOps = append(poolOps, b.Name()+" into "+exprText(c.Args[0]))
+							poolOps = append(poolOps, "5|"+b.Name()+" into "+exprText(c.Args[0]))
 						}
 					}
 					// unsafe views must point at local memory
@@ -990,15 +1236,29 @@ func analyse(cfgName string, env []string, patterns []string, wantPkgs map[strin
 					// pool protocol
 					if f2 := c.StaticCallee(); f2 != nil && f2.Pkg != nil && f2.Pkg.Pkg.Path() == "sync" && f2.Signature.Recv() != nil && strings.Contains(f2.Signature.Recv().Type().String(), "Pool") {
 						usesPool = true
-						d := ""
-						if _, ok := x.(*ssa.Defer); ok {
-							d = "defer "
+						code := "0|" // Get
+						if f2.Name() == "Put" {
+							code = "1|"
+							if _, ok := x.(*ssa.Defer); ok {
+								code = "2|"
+							}
 						}
-						poolOps = append(poolOps, d+f2.Name()+" "+exprText(c.Args[0]))
-					} else if usesPool && v != nil {
-						for _, arg := range c.Args {
+						poolOps = append(poolOps, code+exprText(c.Args[0]))
+					} else if _, isBuiltin := c.Value.(*ssa.Builtin); usesPool && !isBuiltin {
+						for ai, arg := range c.Args {
 							if rootKind(root(arg)) == "pool" {
-								poolOps = append(poolOps, "pass-to "+short+" "+exprText(arg))
+								code := "9|"
+								switch {
+								case strings.HasPrefix(short, "binary.") && strings.Contains(short, "Put"):
+									code = "6|" // overwrites the buffer
+								case short == "(hash.Hash).Write" || strings.HasPrefix(short, "subtle.") || strings.HasPrefix(short, "bytes.") || strings.HasPrefix(short, "hex."):
+									code = "7|" // reads it, keeps nothing
+								default:
+									if g := c.StaticCallee(); g != nil && a.inRepo[g] && !retainsParam(a, g, ai, 0) {
+										code = "8|" // an internal helper that neither stores nor publishes its argument
+									}
+								}
+								poolOps = append(poolOps, code+"pass-to "+short+" "+exprText(arg))
 							}
 						}
 					}
@@ -1007,10 +1267,135 @@ func analyse(cfgName string, env []string, patterns []string, wantPkgs map[strin
 			}
 		}
 		if usesPool {
-			pools = append(pools, site{cfg: cfgName, fn: fn, kind: "pool", ord: 1, expr: strings.Join(poolOps, "; ")})
+			pools = append(pools, site{cfg: cfgName, fn: fn, kind: "pool", ord: 1, expr: strings.Join(poolOps, "; "), extra: poolOps})
 		}
 	}
 	return
+}
+
+// retainsParam: may function f keep (store, capture, send, hand to unknown code) the memory its i-th argument points to
+// beyond the call?  Returning a view of it is not retention (the caller sees that through retAliasOf).
+func retainsParam(a *analysis, f *ssa.Function, i int, depth int) bool {
+	if depth > 4 || i >= len(f.Params) || len(f.Blocks) == 0 {
+		return true
+	}
+	p := f.Params[i]
+	is := func(v ssa.Value) bool { return v != nil && root(v) == ssa.Value(p) }
+	for _, b := range f.Blocks {
+		for _, ins := range b.Instrs {
+			switch x := ins.(type) {
+			case *ssa.Store:
+				if is(x.Val) && pointerLike(x.Val.Type()) {
+					if _, local := root(x.Addr).(*ssa.Alloc); !local {
+						return true
+					}
+				}
+			case *ssa.MapUpdate:
+				if is(x.Value) || is(x.Key) {
+					return true
+				}
+			case *ssa.MakeClosure:
+				for _, bnd := range x.Bindings {
+					if is(bnd) {
+						return true
+					}
+				}
+			case *ssa.Send:
+				if is(x.X) {
+					return true
+				}
+			case ssa.CallInstruction:
+				c := x.Common()
+				if _, ok := c.Value.(*ssa.Builtin); ok {
+					continue
+				}
+				_, isGo := x.(*ssa.Go)
+				for j, arg := range c.Args {
+					if !is(arg) {
+						continue
+					}
+					if isGo {
+						return true
+					}
+					name := calleeName(c)
+					short := name
+					if k := strings.LastIndex(name, "/"); k >= 0 {
+						short = name[k+1:]
+					}
+					if g := c.StaticCallee(); g != nil && a.inRepo[g] {
+						if retainsParam(a, g, j, depth+1) {
+							return true
+						}
+						continue
+					}
+					if short == "(hash.Hash).Write" || strings.HasPrefix(short, "binary.") || strings.HasPrefix(short, "subtle.") || strings.HasPrefix(short, "bytes.") || strings.HasPrefix(short, "hex.") {
+						continue
+					}
+					return true
+				}
+			}
+		}
+	}
+	return false
+}
+
+// poolTyped: x asserts the type of a value obtained from sync.Pool.Get on a package-level pool whose New function and
+// every Put (in the analysed code) use exactly that type.
+func poolTyped(a *analysis, x *ssa.TypeAssert) bool {
+	call, ok := x.X.(*ssa.Call)
+	if !ok || !isPoolGet(call) || len(call.Call.Args) != 1 {
+		return false
+	}
+	pool, ok := call.Call.Args[0].(*ssa.Global)
+	if !ok {
+		return false
+	}
+	want := x.AssertedType
+	sawNew := false
+	for _, f := range a.fns {
+		for _, b := range f.Blocks {
+			for _, ins := range b.Instrs {
+				switch y := ins.(type) {
+				case ssa.CallInstruction:
+					c := y.Common()
+					if g := c.StaticCallee(); g != nil && g.Name() == "Put" && g.Pkg != nil && g.Pkg.Pkg.Path() == "sync" && len(c.Args) == 2 && c.Args[0] == ssa.Value(pool) {
+						mi, ok := c.Args[1].(*ssa.MakeInterface)
+						if !ok || !types.Identical(mi.X.Type(), want) {
+							return false
+						}
+					}
+				case *ssa.Store:
+					// pool.New = func() any { return <value of type want> }   (init)
+					if fa, ok := y.Addr.(*ssa.FieldAddr); ok && fa.X == ssa.Value(pool) {
+						var fn *ssa.Function
+						switch v := y.Val.(type) {
+						case *ssa.Function:
+							fn = v
+						case *ssa.MakeClosure:
+							fn, _ = v.Fn.(*ssa.Function)
+						}
+						if fn == nil {
+							return false
+						}
+						for _, fb := range fn.Blocks {
+							for _, fi := range fb.Instrs {
+								if ret, ok := fi.(*ssa.Return); ok {
+									for _, res := range ret.Results {
+										mi, ok := res.(*ssa.MakeInterface)
+										if !ok || !types.Identical(mi.X.Type(), want) {
+											return false
+										}
+										sawNew = true
+									}
+								}
+							}
+						}
+					}
+				}
+			}
+		}
+	}
+	return sawNew
 }
 
 func isNilConst(v ssa.Value) bool {
@@ -1087,9 +1472,76 @@ func main() {
 		}
 		b.WriteString("]\n\n")
 	}
+	// verification conditions: one line per theorem / table entry so that the check can drop the ones omega cannot prove
+	{
+		var vb strings.Builder
+		vb.WriteString("-- GENERATED by /verif/harness/cmd/ssafacts (vc.go). Do not edit.\n")
+		vb.WriteString("-- One in-bounds / non-zero-divisor condition per potentially panicking instruction, from the dominating branch\n-- conditions, type facts and loop-variable monotonicity found in go/ssa; each is proved by omega.\n")
+		vb.WriteString("namespace OtpVerif.Gen.PanicVC\n\n")
+		vb.WriteString("/-- a panic site together with the condition under which it cannot panic, and the proof of that condition -/\nstructure Proved where\n  site : Nat × List Nat × List Nat × List Nat × List (List Nat)\n  cond : Prop\n  proof : cond\n\n")
+		var entries []string
+		k := 0
+		for _, s := range panics {
+			if !s.hasVC {
+				continue
+			}
+			name := fmt.Sprintf("vc_%d_%s_%s_%d", cfgCode(s.cfg), leanIdent(s.fn), leanIdent(s.kind), s.ord)
+			var ex []string
+			for _, e := range s.extra {
+				ex = append(ex, lbytes(e))
+			}
+			tuple := fmt.Sprintf("(%d, %s, %s, %s, [%s])", cfgCode(s.cfg), lbytes(s.fn), lbytes(s.kind), lbytes(s.expr), strings.Join(ex, ", "))
+			// variant a: from the function's own guards
+			fmt.Fprintf(&vb, "theorem %s_a : %s := by intros; omega -- VC %d.a ¦ %s ¦ %s ¦ %s\n", name, vcStmt(s.vcVars, s.vcHyps, s.vcGoal), k, s.cfg, s.fn, oneLine(s.expr))
+			entries = append(entries, fmt.Sprintf("  ⟨%s, _, %s_a⟩ :: -- VCENTRY %d.a", tuple, name, k))
+			// variant b: under what holds at every call site of this (internal) function
+			if s.hasCtx && len(s.vcCtx) > 0 {
+				var parts, proofs []string
+				for _, c := range s.vcCtx {
+					parts = append(parts, "("+vcStmt(c[0].([]string), c[1].([]string), c[2].(string))+")")
+					proofs = append(proofs, "by intros; omega")
+				}
+				stmt, proof := strings.Join(parts, " ∧ "), "⟨"+strings.Join(proofs, ", ")+"⟩"
+				if len(parts) == 1 {
+					proof = proofs[0]
+				}
+				fmt.Fprintf(&vb, "theorem %s_b : %s := %s -- VC %d.b ¦ %s ¦ %s ¦ %s (at its %d call sites)\n", name, stmt, proof, k, s.cfg, s.fn, oneLine(s.expr), len(parts))
+				entries = append(entries, fmt.Sprintf("  ⟨%s, _, %s_b⟩ :: -- VCENTRY %d.b", tuple, name, k))
+			}
+			k++
+		}
+		vb.WriteString("\ndef proved : List Proved :=\n")
+		for _, e := range entries {
+			vb.WriteString(e + "\n")
+		}
+		vb.WriteString("  []\n\nend OtpVerif.Gen.PanicVC\n")
+		vcOut := filepath.Join(filepath.Dir(out), "PanicVC.lean")
+		if os.Getenv("VERIF_VC_OUT") != "" {
+			vcOut = os.Getenv("VERIF_VC_OUT")
+		}
+		if old, err := os.ReadFile(vcOut); err != nil || string(old) != vb.String() {
+			os.WriteFile(vcOut, []byte(vb.String()), 0o644)
+		}
+	}
 	emit("panicSites", "potentially panicking instructions of package otp: (cfg, function, kind, ordinal, expression, dominating guards on the operand)", panics)
 	emit("storeSites", "writes / returns / unsafe views whose root is caller memory, a global, or pooled memory escaping: (cfg, function, kind, ordinal, expression, [])", stores)
-	emit("poolSites", "for each function that uses a sync.Pool: the order of its pool operations", pools)
+	{
+		b.WriteString("/-- for each function that uses a sync.Pool: its pool operations in program order, as (code, text):\n0 Get, 1 Put, 2 deferred Put, 3 write into the buffer, 4 reslice, 5 append / copy into it, 6 handed to a library function that overwrites it,\n7 handed to a library function that only reads it, 8 handed to an internal helper that does not keep it, 9 handed to anything else -/\n")
+		b.WriteString("def poolSites : List (Nat × List Nat × List (Nat × List Nat)) := [\n")
+		for i, s := range pools {
+			sep := ","
+			if i == len(pools)-1 {
+				sep = ""
+			}
+			var ops []string
+			for _, o := range s.extra {
+				code, text := o[:1], o[2:]
+				ops = append(ops, "("+code+", "+lbytes(text)+")")
+			}
+			fmt.Fprintf(&b, "  -- %s ¦ %s ¦ %s\n  (%d, %s, [%s])%s\n", s.cfg, s.fn, oneLine(s.expr), cfgCode(s.cfg), lbytes(s.fn), strings.Join(ops, ", "), sep)
+		}
+		b.WriteString("]\n\n")
+	}
 	b.WriteString("end OtpVerif.Gen\n")
 	old, err := os.ReadFile(out)
 	if err == nil && string(old) == b.String() {
